@@ -149,16 +149,23 @@ Definition finder_at (cx cy x y : Z) : option bool :=
   let d := zabs_max (x - cx) (y - cy) in
   if d <=? 4 then Some (negb ((d =? 2) || (d =? 4))) else None.
 
-(* alignment pattern: 5x5, dark except ring 1; not placed where it would overlap a finder *)
+(* alignment pattern: 5x5 around (cx, cy) for every pair of centre coordinates of the
+   version except the three pairs that would overlap a finder pattern; dark except
+   ring 1.  (Centre coordinates are more than 4 apart, so at most one is within
+   distance 2 of a given coordinate.) *)
+Definition near_centre (cs : list Z) (x : Z) : option Z :=
+  find (fun c => Z.abs (x - c) <=? 2) cs.
+
 Definition alignment_at (v x y : Z) : option bool :=
   let cs := alignment_centres v in
   let size := spec_size v in
-  let hit := flat_map (fun cx => flat_map (fun cy =>
-               if ((cx =? 6) && (cy =? 6)) || ((cx =? 6) && (cy =? size - 7))
-                  || ((cx =? size - 7) && (cy =? 6)) then []
-               else let d := zabs_max (x - cx) (y - cy) in
-                    if d <=? 2 then [negb (d =? 1)] else []) cs) cs in
-  match hit with b :: _ => Some b | [] => None end.
+  match near_centre cs x, near_centre cs y with
+  | Some cx, Some cy =>
+    if ((cx =? 6) && (cy =? 6)) || ((cx =? 6) && (cy =? size - 7))
+       || ((cx =? size - 7) && (cy =? 6)) then None
+    else Some (negb (zabs_max (x - cx) (y - cy) =? 1))
+  | _, _ => None
+  end.
 
 (* the colour the standard prescribes for a fixed-pattern module, None elsewhere *)
 Definition fixed_pattern (v x y : Z) : option bool :=
